@@ -42,6 +42,10 @@ type AnchoredLiteralInfo struct {
 	// WildcardMin is 0 for .* or 1 for .+
 	WildcardMin int
 
+	// WildcardNotNL is true when the wildcard is `.` without the s flag,
+	// i.e. it must not run across a newline.
+	WildcardNotNL bool
+
 	// MinLength is the minimum input length for a possible match.
 	// Calculated as: len(Prefix) + WildcardMin + CharClassMin + len(Suffix)
 	MinLength int
@@ -102,6 +106,7 @@ func DetectAnchoredLiteral(re *syntax.Regexp) *AnchoredLiteralInfo {
 	var prefix []byte
 	var wildcardIdx = -1
 	var wildcardMin int
+	var wildcardNotNL bool
 	var charClassTable *[256]bool
 	var charClassMin int
 
@@ -117,6 +122,7 @@ func DetectAnchoredLiteral(re *syntax.Regexp) *AnchoredLiteralInfo {
 			}
 			wildcardIdx = i
 			wildcardMin = getWildcardMin(sub)
+			wildcardNotNL = sub.Sub[0].Op == syntax.OpAnyCharNotNL
 		} else if wildcardIdx == -1 {
 			// Before wildcard - must be literal (prefix)
 			lit := extractLiteral(sub)
@@ -162,18 +168,22 @@ func DetectAnchoredLiteral(re *syntax.Regexp) *AnchoredLiteralInfo {
 		CharClassTable: charClassTable,
 		CharClassMin:   charClassMin,
 		WildcardMin:    wildcardMin,
+		WildcardNotNL:  wildcardNotNL,
 		MinLength:      minLen,
 	}
 }
 
-// isStartAnchor returns true if re is a start anchor (^ or \A).
+// isStartAnchor returns true if re is a start-of-text anchor (^ or \A).
+// The multi-line ^ (OpBeginLine) also matches after every newline and is
+// therefore not a whole-input anchor.
 func isStartAnchor(re *syntax.Regexp) bool {
-	return re.Op == syntax.OpBeginText || re.Op == syntax.OpBeginLine
+	return re.Op == syntax.OpBeginText
 }
 
-// isEndAnchor returns true if re is an end anchor ($ or \z).
+// isEndAnchor returns true if re is an end-of-text anchor ($ or \z).
+// The multi-line $ (OpEndLine) also matches before every newline.
 func isEndAnchor(re *syntax.Regexp) bool {
-	return re.Op == syntax.OpEndText || re.Op == syntax.OpEndLine
+	return re.Op == syntax.OpEndText
 }
 
 // isGreedyWildcard returns true if re is .* or .+ (greedy).
@@ -323,7 +333,10 @@ func MatchAnchoredLiteral(input []byte, info *AnchoredLiteralInfo) bool {
 	if info.CharClassTable == nil {
 		// Still need to verify wildcard minimum
 		middleLen := suffixStart - len(info.Prefix)
-		return middleLen >= info.WildcardMin
+		if middleLen < info.WildcardMin {
+			return false
+		}
+		return !info.WildcardNotNL || !containsNewline(input[len(info.Prefix):suffixStart])
 	}
 
 	// O(k) charclass bridge check
@@ -348,5 +361,20 @@ func MatchAnchoredLiteral(input []byte, info *AnchoredLiteralInfo) bool {
 		}
 	}
 
-	return found >= info.CharClassMin
+	if found < info.CharClassMin {
+		return false
+	}
+	// Bytes in front of the trailing charclass run belong to the wildcard.
+	return !info.WildcardNotNL || !containsNewline(input[len(info.Prefix):charClassEnd-found])
+}
+
+// containsNewline reports whether b contains a '\n' (which `.` without the
+// s flag does not match).
+func containsNewline(b []byte) bool {
+	for _, c := range b {
+		if c == '\n' {
+			return true
+		}
+	}
+	return false
 }
